@@ -910,6 +910,70 @@ func c03inject(p *Program, r *Report) {
 		r.Undecided(c03InjectRule, FnName(dc), "decode table is constant", dc.Pos(), "initialiser is not a constant composite literal")
 		return
 	}
+	// round 7 (C03-agent7-m2): a character that is not in the alphabet is REFUSED — some branch in the decoder tests the
+	// signed table entry for "no symbol" (== -1, < 0) and its true edge can only end in an error.  `v := byte(tab[c]);
+	// if v < 0` compiles, is never true, and lets b, i, o and 1 through as the value 255.
+	{
+		rej := rejectingBlocks(dc)
+		okNeg := false
+		for _, b := range dc.Blocks {
+			iff, isIf := lastInstr(b).(*ssa.If)
+			if !isIf {
+				continue
+			}
+			var scan func(v ssa.Value, truth bool, depth int)
+			scan = func(v ssa.Value, truth bool, depth int) {
+				if depth > 3 {
+					return
+				}
+				if u, isU := v.(*ssa.UnOp); isU && u.Op == token.NOT {
+					scan(u.X, !truth, depth+1)
+					return
+				}
+				bo, isB := v.(*ssa.BinOp)
+				if !isB {
+					return
+				}
+				// operand: the table entry, possibly widened — but never through an unsigned type
+				entry := func(x ssa.Value) bool {
+					for {
+						cv, isCv := x.(*ssa.Convert)
+						if !isCv {
+							break
+						}
+						if isUnsignedT(cv.Type()) {
+							return false
+						}
+						x = cv.X
+					}
+					ld, isL := x.(*ssa.UnOp)
+					if !isL || ld.Op != token.MUL {
+						return false
+					}
+					ia, isIA := ld.X.(*ssa.IndexAddr)
+					return isIA && ia.X == ssa.Value(table)
+				}
+				k, isK := constInt(bo.Y)
+				if !isK || !entry(bo.X) {
+					return
+				}
+				neg := (bo.Op == token.EQL && k == -1) || (bo.Op == token.LSS && k == 0) || (bo.Op == token.LEQ && k == -1)
+				if !neg {
+					return
+				}
+				succ := b.Succs[0]
+				if !truth {
+					succ = b.Succs[1]
+				}
+				if rejectingVia(rej, b, succ, 0) {
+					okNeg = true
+				}
+			}
+			scan(iff.Cond, true, 0)
+		}
+		r.Add(c03InjectRule, FnName(dc), "a character outside the alphabet (table entry −1) is refused", dc.Pos(), okNeg,
+			"a test of the signed table entry for −1 / < 0 whose true edge only leads to an error")
+	}
 	// the encoder's alphabet: constant string indexed on the encode path
 	alpha := ""
 	if obj := p.Pkg("").Members["Charset"]; obj != nil {
